@@ -240,6 +240,8 @@ static void process_get_all_attr(struct xcm_socket *socket,
     cfm->attrs_len = 0;
 
     xcm_attr_get_all(socket, add_attr, cfm);
+
+    response->type = ctl_proto_type_get_all_attr_cfm;
 }
 
 static int client_send(struct client *client, struct ctl *ctl)
